@@ -22,6 +22,8 @@ import (
 	"github.com/anz-bank/sysl/pkg/sysl"
 	"github.com/sirupsen/logrus"
 	"github.com/spf13/afero"
+	"google.golang.org/protobuf/encoding/protojson"
+	"google.golang.org/protobuf/encoding/prototext"
 	"google.golang.org/protobuf/proto"
 	"google.golang.org/protobuf/reflect/protoreflect"
 
@@ -34,52 +36,108 @@ type NV struct {
 	K string `json:"k"`
 	V string `json:"v"`
 }
+type NA struct {
+	K string   `json:"k"`
+	V []string `json:"v"`
+}
 type Attrs struct {
 	Tags []string `json:"tags,omitempty"`
 	NV   []NV     `json:"nv,omitempty"`
+	Arr  []NA     `json:"arr,omitempty"` // name=["a","b"]
 }
 
-func (a Attrs) empty() bool { return len(a.Tags) == 0 && len(a.NV) == 0 }
+func (a Attrs) empty() bool { return len(a.Tags) == 0 && len(a.NV) == 0 && len(a.Arr) == 0 }
 
+// Anno: `@k = "v"` or `@k = ["a", "b"]`
+type Anno struct {
+	K     string   `json:"k"`
+	V     string   `json:"v,omitempty"`
+	Arr   []string `json:"arr,omitempty"`
+	IsArr bool     `json:"isarr,omitempty"`
+}
 type Field struct {
 	Name string `json:"name"`
 	Ty   string `json:"ty"`
 	Opt  bool   `json:"opt,omitempty"`
 	A    Attrs  `json:"a,omitempty"`
+	Sp   int    `json:"sp,omitempty"` // spelling variant of the name (see spellV)
+}
+type Choice struct {
+	Label string `json:"label"`
+	Body  []Stmt `json:"body"`
 }
 type Stmt struct {
-	Kind int      `json:"kind"` // 0 action, 1 call, 2 return
-	Text string   `json:"text"`
-	App  []string `json:"app,omitempty"`
+	Kind    int      `json:"kind"` // 0 action, 1 call, 2 return, 3 nested block (Kw Pred: Body), 4 one of (Choices)
+	Text    string   `json:"text,omitempty"`
+	App     []string `json:"app,omitempty"`
+	Kw      string   `json:"kw,omitempty"` // if | else | for | loop | alt | while | until | for each | group
+	Body    []Stmt   `json:"body,omitempty"`
+	Choices []Choice `json:"choices,omitempty"`
+}
+type Param struct {
+	Name string `json:"name"`
+	Ty   string `json:"ty"`
+	Opt  bool   `json:"opt,omitempty"`
 }
 type Method struct {
-	Verb string `json:"verb"`
-	A    Attrs  `json:"a,omitempty"`
-	Body []Stmt `json:"body"`
+	Verb   string  `json:"verb"`
+	A      Attrs   `json:"a,omitempty"`
+	Annos  []Anno  `json:"annos,omitempty"`
+	Params []Param `json:"params,omitempty"`
+	Query  []Param `json:"query,omitempty"`
+	Body   []Stmt  `json:"body"`
+}
+type Seg struct {
+	Name string `json:"name"`
+	Ty   string `json:"ty,omitempty"` // non-empty: a typed path variable {Name <: Ty}
 }
 type RNode struct {
-	Segs    []string `json:"segs"`
+	Segs    []string `json:"segs,omitempty"` // static segments (round 1/2 replays)
+	PSegs   []Seg    `json:"psegs,omitempty"`
 	Methods []Method `json:"methods,omitempty"`
 	Subs    []*RNode `json:"subs,omitempty"`
+	Sp      int      `json:"sp,omitempty"`
 }
+
+func (r *RNode) segs() []Seg {
+	if len(r.PSegs) > 0 {
+		return r.PSegs
+	}
+	o := make([]Seg, len(r.Segs))
+	for i, s := range r.Segs {
+		o[i] = Seg{Name: s}
+	}
+	return o
+}
+
 type Item struct {
 	Name string `json:"name"`
 	Val  int64  `json:"val"`
 }
 type Member struct {
-	Kind   string  `json:"kind"` // type | table | enum | ep | event | rest
-	Name   string  `json:"name,omitempty"`
-	A      Attrs   `json:"a,omitempty"`
-	Fields []Field `json:"fields,omitempty"`
-	Items  []Item  `json:"items,omitempty"`
-	Body   []Stmt  `json:"body,omitempty"`
-	Rest   *RNode  `json:"rest,omitempty"`
+	// type | table | enum | alias | union | ep | event | rest | mixin | sub | anno
+	Kind   string   `json:"kind"`
+	Name   string   `json:"name,omitempty"`
+	A      Attrs    `json:"a,omitempty"`
+	Annos  []Anno   `json:"annos,omitempty"`
+	Fields []Field  `json:"fields,omitempty"`
+	Items  []Item   `json:"items,omitempty"`
+	Ty     string   `json:"ty,omitempty"`   // alias target
+	Alts   []string `json:"alts,omitempty"` // union members
+	Params []Param  `json:"params,omitempty"`
+	Body   []Stmt   `json:"body,omitempty"`
+	Dots   bool     `json:"dots,omitempty"` // event / subscription written `...`
+	Rest   *RNode   `json:"rest,omitempty"`
+	Target []string `json:"target,omitempty"` // mixin target / publisher
+	Anno   *Anno    `json:"anno,omitempty"`
+	Sp     int      `json:"sp,omitempty"`
 }
 type Block struct {
 	Parts   []string `json:"app"`
 	Long    string   `json:"long,omitempty"`
 	A       Attrs    `json:"a,omitempty"`
 	Members []Member `json:"members,omitempty"`
+	Sp      int      `json:"sp,omitempty"`
 }
 type File struct {
 	Name    string   `json:"name"`
@@ -88,6 +146,8 @@ type File struct {
 	// import i; Noise[len(Imports)] = after the last import (before the first block)
 	Noise  [][]string `json:"noise,omitempty"`
 	Blocks []Block    `json:"blocks"`
+	// PB != "": the file is handed to the parser as the compiled module of its blocks ("pb" | "pb.json" | "textpb")
+	PB string `json:"pb,omitempty"`
 }
 type Layout struct {
 	Root  string `json:"root"`
@@ -103,13 +163,25 @@ type Spec struct{ Apps []App }
 
 // ---------------------------------------------------------------- rendering to Sysl text
 
+func plain(c byte) bool {
+	return c >= 'a' && c <= 'z' || c >= 'A' && c <= 'Z' || c >= '0' && c <= '9' || c == '_' || c == '-'
+}
+
 // spell writes a name the way Sysl source spells it: every byte outside [A-Za-z0-9_-] as %XX (the lexer's Name rule;
 // the listener un-escapes it again), so abstract names may contain '.', ':', ' ' and the like.
-func spell(n string) string {
+func spell(n string) string { return spellV(n, 0) }
+
+// spellV: variant v > 0 additionally writes ONE plain byte (not the first: a Name needs a literal letter after its
+// leading escapes) as %XX - `a%2Db` for `a-b`, `T%31` for `T1`: another spelling of the same name.
+func spellV(n string, v int) string {
+	esc := -1
+	if v > 0 && len(n) >= 2 {
+		esc = 1 + (v-1)%(len(n)-1)
+	}
 	var sb strings.Builder
 	for i := 0; i < len(n); i++ {
 		c := n[i]
-		if c >= 'a' && c <= 'z' || c >= 'A' && c <= 'Z' || c >= '0' && c <= '9' || c == '_' || c == '-' {
+		if plain(c) && i != esc {
 			sb.WriteByte(c)
 		} else {
 			fmt.Fprintf(&sb, "%%%02X", c)
@@ -118,12 +190,21 @@ func spell(n string) string {
 	return sb.String()
 }
 
-func spellAll(ns []string) []string {
+func spellAll(ns []string) []string { return spellAllV(ns, 0) }
+func spellAllV(ns []string, v int) []string {
 	o := make([]string, len(ns))
 	for i, n := range ns {
-		o[i] = spell(n)
+		o[i] = spellV(n, v)
 	}
 	return o
+}
+
+func qlist(vs []string) string {
+	q := make([]string, len(vs))
+	for i, v := range vs {
+		q[i] = "\"" + v + "\""
+	}
+	return "[" + strings.Join(q, ", ") + "]"
 }
 
 func rAttrs(a Attrs) string {
@@ -131,14 +212,25 @@ func rAttrs(a Attrs) string {
 		return ""
 	}
 	var it []string
-	// tags and name=value pairs interleaved deterministically: pairs first, then tags
+	// name=value pairs first, then arrays, then tags
 	for _, nv := range a.NV {
 		it = append(it, fmt.Sprintf("%s=\"%s\"", nv.K, nv.V))
+	}
+	for _, na := range a.Arr {
+		it = append(it, fmt.Sprintf("%s=%s", na.K, qlist(na.V)))
 	}
 	for _, t := range a.Tags {
 		it = append(it, "~"+t)
 	}
 	return " [" + strings.Join(it, ", ") + "]"
+}
+
+func rAnno(sb *strings.Builder, ind string, a Anno) {
+	if a.IsArr {
+		fmt.Fprintf(sb, "%s@%s = %s\n", ind, a.K, qlist(a.Arr))
+	} else {
+		fmt.Fprintf(sb, "%s@%s = \"%s\"\n", ind, a.K, a.V)
+	}
 }
 
 func rStmts(sb *strings.Builder, ind string, body []Stmt) {
@@ -148,18 +240,79 @@ func rStmts(sb *strings.Builder, ind string, body []Stmt) {
 			fmt.Fprintf(sb, "%s%s\n", ind, s.Text)
 		case 1:
 			fmt.Fprintf(sb, "%s%s <- %s\n", ind, strings.Join(spellAll(s.App), " :: "), s.Text)
-		default:
+		case 2:
 			fmt.Fprintf(sb, "%sreturn %s\n", ind, s.Text)
+		case 3:
+			switch {
+			case s.Kw == "group":
+				fmt.Fprintf(sb, "%s%s:\n", ind, s.Text)
+			case s.Text == "":
+				fmt.Fprintf(sb, "%s%s:\n", ind, s.Kw)
+			default:
+				fmt.Fprintf(sb, "%s%s %s:\n", ind, s.Kw, s.Text)
+			}
+			rStmts(sb, ind+"    ", s.Body)
+		case 4:
+			fmt.Fprintf(sb, "%sone of:\n", ind)
+			for _, c := range s.Choices {
+				fmt.Fprintf(sb, "%s    %s:\n", ind, c.Label)
+				rStmts(sb, ind+"        ", c.Body)
+			}
 		}
 	}
 }
 
+// rBody: the annotations of an endpoint go before its first statement and (the second half) after its last one
+func rBody(sb *strings.Builder, ind string, annos []Anno, body []Stmt) {
+	h := (len(annos) + 1) / 2
+	for _, a := range annos[:h] {
+		rAnno(sb, ind, a)
+	}
+	rStmts(sb, ind, body)
+	for _, a := range annos[h:] {
+		rAnno(sb, ind, a)
+	}
+}
+
+func rParams(ps []Param) string {
+	if len(ps) == 0 {
+		return ""
+	}
+	it := make([]string, len(ps))
+	for i, p := range ps {
+		it[i] = p.Name + " <: " + p.Ty
+	}
+	return " (" + strings.Join(it, ", ") + ")"
+}
+
+func rQuery(ps []Param) string {
+	if len(ps) == 0 {
+		return ""
+	}
+	it := make([]string, len(ps))
+	for i, p := range ps {
+		it[i] = p.Name + "=" + p.Ty
+		if p.Opt {
+			it[i] += "?"
+		}
+	}
+	return " ?" + strings.Join(it, "&")
+}
+
 func rRest(sb *strings.Builder, depth int, r *RNode) {
 	ind := strings.Repeat("    ", depth)
-	fmt.Fprintf(sb, "%s/%s:\n", ind, strings.Join(r.Segs, "/"))
+	var segs []string
+	for _, s := range r.segs() {
+		if s.Ty != "" {
+			segs = append(segs, fmt.Sprintf("{%s <: %s}", s.Name, s.Ty))
+		} else {
+			segs = append(segs, spellV(s.Name, r.Sp))
+		}
+	}
+	fmt.Fprintf(sb, "%s/%s:\n", ind, strings.Join(segs, "/"))
 	for _, m := range r.Methods {
-		fmt.Fprintf(sb, "%s    %s%s:\n", ind, m.Verb, rAttrs(m.A))
-		rStmts(sb, ind+"        ", m.Body)
+		fmt.Fprintf(sb, "%s    %s%s%s%s:\n", ind, m.Verb, rParams(m.Params), rQuery(m.Query), rAttrs(m.A))
+		rBody(sb, ind+"        ", m.Annos, m.Body)
 	}
 	for _, s := range r.Subs {
 		rRest(sb, depth+1, s)
@@ -167,7 +320,7 @@ func rRest(sb *strings.Builder, depth int, r *RNode) {
 }
 
 func rBlock(sb *strings.Builder, b Block) {
-	sb.WriteString(strings.Join(spellAll(b.Parts), " :: "))
+	sb.WriteString(strings.Join(spellAllV(b.Parts, b.Sp), " :: "))
 	if b.Long != "" {
 		fmt.Fprintf(sb, " \"%s\"", b.Long)
 	}
@@ -179,55 +332,106 @@ func rBlock(sb *strings.Builder, b Block) {
 	for _, m := range b.Members {
 		switch m.Kind {
 		case "type", "table":
-			fmt.Fprintf(sb, "    !%s %s%s:\n", m.Kind, spell(m.Name), rAttrs(m.A))
+			fmt.Fprintf(sb, "    !%s %s%s:\n", m.Kind, spellV(m.Name, m.Sp), rAttrs(m.A))
+			// annotations and fields interleaved: the first half of the annotations, the fields, the rest
+			h := (len(m.Annos) + 1) / 2
+			for _, a := range m.Annos[:h] {
+				rAnno(sb, "        ", a)
+			}
 			for _, f := range m.Fields {
 				opt := ""
 				if f.Opt {
 					opt = "?"
 				}
-				fmt.Fprintf(sb, "        %s <: %s%s%s\n", spell(f.Name), f.Ty, opt, rAttrs(f.A))
+				fmt.Fprintf(sb, "        %s <: %s%s%s\n", spellV(f.Name, f.Sp), f.Ty, opt, rAttrs(f.A))
+			}
+			for _, a := range m.Annos[h:] {
+				rAnno(sb, "        ", a)
 			}
 		case "enum":
-			fmt.Fprintf(sb, "    !enum %s%s:\n", spell(m.Name), rAttrs(m.A))
+			fmt.Fprintf(sb, "    !enum %s%s:\n", spellV(m.Name, m.Sp), rAttrs(m.A))
+			for _, a := range m.Annos {
+				rAnno(sb, "        ", a)
+			}
 			for _, it := range m.Items {
 				fmt.Fprintf(sb, "        %s: %d\n", it.Name, it.Val)
 			}
+		case "alias":
+			fmt.Fprintf(sb, "    !alias %s%s:\n", spellV(m.Name, m.Sp), rAttrs(m.A))
+			for _, a := range m.Annos {
+				rAnno(sb, "        ", a)
+			}
+			fmt.Fprintf(sb, "        %s\n", m.Ty)
+		case "union":
+			if len(m.Alts) == 0 {
+				fmt.Fprintf(sb, "    !union %s%s: ...\n", spellV(m.Name, m.Sp), rAttrs(m.A))
+			} else {
+				fmt.Fprintf(sb, "    !union %s%s:\n", spellV(m.Name, m.Sp), rAttrs(m.A))
+			}
+			for _, al := range m.Alts {
+				fmt.Fprintf(sb, "        %s\n", al)
+			}
 		case "ep":
-			fmt.Fprintf(sb, "    %s%s:\n", m.Name, rAttrs(m.A))
-			rStmts(sb, "        ", m.Body)
+			fmt.Fprintf(sb, "    %s%s%s:\n", m.Name, rParams(m.Params), rAttrs(m.A))
+			rBody(sb, "        ", m.Annos, m.Body)
 		case "event":
-			fmt.Fprintf(sb, "    <-> %s:\n", m.Name)
-			rStmts(sb, "        ", m.Body)
+			if m.Dots {
+				fmt.Fprintf(sb, "    <-> %s%s: ...\n", m.Name, rParams(m.Params))
+			} else {
+				fmt.Fprintf(sb, "    <-> %s%s:\n", m.Name, rParams(m.Params))
+				rStmts(sb, "        ", m.Body)
+			}
 		case "rest":
 			rRest(sb, 1, m.Rest)
+		case "mixin":
+			fmt.Fprintf(sb, "    -|> %s\n", strings.Join(spellAll(m.Target), " :: "))
+		case "sub":
+			if m.Dots {
+				fmt.Fprintf(sb, "    %s -> %s%s: ...\n", strings.Join(spellAll(m.Target), " :: "), m.Name, rAttrs(m.A))
+			} else {
+				fmt.Fprintf(sb, "    %s -> %s%s:\n", strings.Join(spellAll(m.Target), " :: "), m.Name, rAttrs(m.A))
+				rBody(sb, "        ", m.Annos, m.Body)
+			}
+		case "anno":
+			rAnno(sb, "    ", *m.Anno)
 		}
 	}
 }
 
+func renderFile(f File) string {
+	var sb strings.Builder
+	noise := func(i int) {
+		if i < len(f.Noise) {
+			for _, l := range f.Noise[i] {
+				sb.WriteString(l + "\n")
+			}
+		}
+	}
+	for k, i := range f.Imports {
+		noise(k)
+		fmt.Fprintf(&sb, "import %s\n", strings.TrimSuffix(i, ".sysl"))
+	}
+	noise(len(f.Imports))
+	if len(f.Imports) > 0 && len(f.Noise) == 0 {
+		sb.WriteString("\n")
+	}
+	for _, b := range f.Blocks {
+		rBlock(&sb, b)
+		sb.WriteString("\n")
+	}
+	return sb.String()
+}
+
+// render: file name -> text.  A file with PB set is written as Sysl text under its name + ".src" together with the
+// format: the worker compiles that text on its own and stores the module under the file's name (see compileInWorker).
 func render(l Layout) map[string]string {
 	out := map[string]string{}
 	for _, f := range l.Files {
-		var sb strings.Builder
-		noise := func(i int) {
-			if i < len(f.Noise) {
-				for _, l := range f.Noise[i] {
-					sb.WriteString(l + "\n")
-				}
-			}
+		if f.PB != "" {
+			out[f.Name+".src:"+f.PB] = renderFile(f)
+			continue
 		}
-		for k, i := range f.Imports {
-			noise(k)
-			fmt.Fprintf(&sb, "import %s\n", strings.TrimSuffix(i, ".sysl"))
-		}
-		noise(len(f.Imports))
-		if len(f.Imports) > 0 && len(f.Noise) == 0 {
-			sb.WriteString("\n")
-		}
-		for _, b := range f.Blocks {
-			rBlock(&sb, b)
-			sb.WriteString("\n")
-		}
-		out[f.Name] = sb.String()
+		out[f.Name] = renderFile(f)
 	}
 	return out
 }
@@ -258,6 +462,31 @@ func compileInWorker(line []byte) interface{} {
 		}()
 		fs := afero.NewMemMapFs()
 		for n, c := range r.Files {
+			if name, format, ok := strings.Cut(n, ".src:"); ok {
+				// a compiled module in the import closure: the text is compiled on its own, the result stored as .pb & co
+				one := afero.NewMemMapFs()
+				afero.WriteFile(one, "one.sysl", []byte(c), 0o644)
+				m1, err := parse.NewParser().ParseFromFs("one.sysl", one)
+				if err != nil {
+					out = crep{Err: "pb-source: " + err.Error()}
+					return
+				}
+				var b []byte
+				switch format {
+				case "pb":
+					b, err = proto.Marshal(m1)
+				case "pb.json":
+					b, err = protojson.Marshal(m1)
+				default:
+					b, err = prototext.Marshal(m1)
+				}
+				if err != nil {
+					out = crep{Err: "pb-marshal: " + err.Error()}
+					return
+				}
+				afero.WriteFile(fs, name, b, 0o644)
+				continue
+			}
 			afero.WriteFile(fs, n, []byte(c), 0o644)
 		}
 		mod, err := parse.NewParser().ParseFromFs(r.Root, fs)
@@ -440,6 +669,32 @@ func sortedCopy(ss []string) []string {
 	return c
 }
 
+// mixSeq: the mixins of an application in the order the layout declares them (processing order)
+func mixSeq(l Layout, app string) []string {
+	var ms []string
+	for _, f := range flattenOrder(l) {
+		for _, b := range f.Blocks {
+			if strings.Join(b.Parts, " :: ") != app {
+				continue
+			}
+			for _, m := range b.Members {
+				if m.Kind == "mixin" {
+					ms = append(ms, strings.Join(m.Target, " :: "))
+				}
+			}
+		}
+	}
+	return ms
+}
+
+func mixNames(a *sysl.Application) []string {
+	var ms []string
+	for _, m := range a.Mixin2 {
+		ms = append(ms, strings.Join(m.GetName().GetPart(), " :: "))
+	}
+	return ms
+}
+
 // ---------------------------------------------------------------- oracle
 
 type replay struct {
@@ -534,15 +789,42 @@ func diff(c *common.Ctx, split, joined *sysl.Module, l, jl Layout) (string, stri
 			if a, b := keysOf(attrDefs(st)), keysOf(attrDefs(jt)); fmt.Sprint(a) != fmt.Sprint(b) {
 				return "field-set", fmt.Sprintf("app %q type %q: split form has fields %q, joined form %q", an, tn, a, b)
 			}
+			if !proto.Equal(&sysl.Type{Attrs: st.Attrs}, &sysl.Type{Attrs: jt.Attrs}) {
+				return "type-attrs", fmt.Sprintf("app %q type %q: attributes %v vs %v", an, tn, st.Attrs, jt.Attrs)
+			}
 			return "type", fmt.Sprintf("app %q type %q differs: %v vs %v", an, tn, st, jt)
 		}
 		if a, b := keysOf(s.Endpoints), keysOf(j.Endpoints); fmt.Sprint(a) != fmt.Sprint(b) {
 			return "endpoint-set", fmt.Sprintf("app %q: split form has endpoints %q, joined form %q", an, a, b)
 		}
 		for _, en := range keysOf(j.Endpoints) {
-			if !proto.Equal(s.Endpoints[en], j.Endpoints[en]) {
-				return "endpoint", fmt.Sprintf("app %q endpoint %q differs: %v vs %v", an, en, s.Endpoints[en], j.Endpoints[en])
+			se, je := s.Endpoints[en], j.Endpoints[en]
+			if proto.Equal(se, je) {
+				continue
 			}
+			switch {
+			case !proto.Equal(&sysl.Endpoint{Attrs: se.Attrs}, &sysl.Endpoint{Attrs: je.Attrs}):
+				return "endpoint-attrs", fmt.Sprintf("app %q endpoint %q: attributes %v vs %v", an, en, se.Attrs, je.Attrs)
+			case !proto.Equal(&sysl.Endpoint{Param: se.Param}, &sysl.Endpoint{Param: je.Param}):
+				return "endpoint-params", fmt.Sprintf("app %q endpoint %q: parameters %v vs %v", an, en, se.Param, je.Param)
+			case !proto.Equal(&sysl.Endpoint{RestParams: se.RestParams}, &sysl.Endpoint{RestParams: je.RestParams}):
+				return "endpoint-rest-params", fmt.Sprintf("app %q endpoint %q: rest parameters %v vs %v", an, en, se.RestParams, je.RestParams)
+			case !proto.Equal(&sysl.Endpoint{Stmt: se.Stmt}, &sysl.Endpoint{Stmt: je.Stmt}):
+				return "endpoint-statements", fmt.Sprintf("app %q endpoint %q: statements %v vs %v", an, en, se.Stmt, je.Stmt)
+			}
+			return "endpoint", fmt.Sprintf("app %q endpoint %q differs: %v vs %v", an, en, se, je)
+		}
+		// Mixin2 grows in declaration order: demanded to be the joined form's order exactly when the split form
+		// declares the mixins in that order, otherwise the same mixins in any order
+		if sm, jm := mixNames(s), mixNames(j); fmt.Sprint(sm) != fmt.Sprint(jm) {
+			switch {
+			case fmt.Sprint(sortedCopy(sm)) != fmt.Sprint(sortedCopy(jm)):
+				return "mixin-set", fmt.Sprintf("app %q: mixins %q in the split form, %q joined", an, sm, jm)
+			case fmt.Sprint(mixSeq(l, an)) == fmt.Sprint(mixSeq(jl, an)):
+				return "mixin-order", fmt.Sprintf("app %q: the blocks declare the mixins in the order %q, as the joined form does, but the compiled list is %q (joined: %q)", an, mixSeq(l, an), sm, jm)
+			}
+			c.Hist("mixin-order-differs-with-block-order(accepted)")
+			s.Mixin2 = j.Mixin2
 		}
 		if !proto.Equal(s, j) {
 			return "app-other", fmt.Sprintf("app %q differs outside attributes, types and endpoints", an)
@@ -562,12 +844,19 @@ func attrDefs(t *sysl.Type) map[string]*sysl.Type {
 }
 
 func judge(c *common.Ctx, rp replay, sm, jm *sysl.Module, serr, jerr string) {
+	// layouts with a compiled module (.pb / .pb.json / .textpb) among the files: their own family of keys
+	pre := ""
+	for _, f := range rp.Split.Files {
+		if f.PB != "" {
+			pre = "pb-import:"
+		}
+	}
 	if jerr != "" {
 		c.Fail("harness:joined-form-rejected", "the joined form does not compile: "+jerr, rp)
 		return
 	}
 	if serr != "" {
-		c.Fail("split-form-rejected", "the joined form compiles but the split form does not: "+serr, rp)
+		c.Fail(pre+"split-form-rejected", "the joined form compiles but the split form does not: "+serr, rp)
 		return
 	}
 	for _, f := range rp.Joined.Files {
@@ -586,7 +875,7 @@ func judge(c *common.Ctx, rp replay, sm, jm *sysl.Module, serr, jerr string) {
 	}
 	k, what := diff(c, normalise(sm), normalise(jm), rp.Split, rp.Joined)
 	if k != "" {
-		c.Fail(k, what, rp)
+		c.Fail(pre+k, what, rp)
 	}
 }
 
@@ -594,8 +883,11 @@ func judge(c *common.Ctx, rp replay, sm, jm *sysl.Module, serr, jerr string) {
 
 type interner struct{ ids map[string]int }
 
+const mixinKey = "\x00mixins"
+
 func newInterner() *interner {
-	return &interner{ids: map[string]int{"patterns": 1, "rest": 2, "pk": 3, "...": 4}}
+	// the fixed ids of Merge/Model.v: patterns_key, rest_tag, pk_tag, dots_name, empty_str, mixin_key
+	return &interner{ids: map[string]int{"patterns": 1, "rest": 2, "pk": 3, "e:...": 4, "s:": 5, mixinKey: 6}}
 }
 func (t *interner) id(s string) string {
 	i, ok := t.ids[s]
@@ -618,44 +910,125 @@ func (t *interner) gEntries(a Attrs) string {
 	for _, nv := range a.NV {
 		it = append(it, fmt.Sprintf("EN %s %s", t.id(nv.K), t.id("s:"+nv.V)))
 	}
+	for _, na := range a.Arr {
+		it = append(it, fmt.Sprintf("EA %s %s", t.id(na.K), t.list(na.V)))
+	}
 	for _, tg := range a.Tags {
 		it = append(it, "ET "+t.id(tg))
 	}
 	return "[" + strings.Join(it, ";") + "]"
 }
-func (t *interner) gStmts(body []Stmt) string {
-	var it []string
-	for _, s := range body {
-		switch s.Kind {
-		case 0:
-			it = append(it, "SA "+t.id("a:"+s.Text))
-		case 1:
-			it = append(it, fmt.Sprintf("SC %s %s", t.list(s.App), t.id("e:"+s.Text)))
-		default:
-			it = append(it, "SR "+t.id("r:"+s.Text))
-		}
+func (t *interner) gAnno(a Anno) string {
+	if a.IsArr {
+		return fmt.Sprintf("(%s, VA %s)", t.id(a.K), t.list(a.Arr))
+	}
+	return fmt.Sprintf("(%s, VS %s)", t.id(a.K), t.id("s:"+a.V))
+}
+func (t *interner) gAnnos(as []Anno) string {
+	it := make([]string, len(as))
+	for i, a := range as {
+		it[i] = t.gAnno(a)
 	}
 	return "[" + strings.Join(it, ";") + "]"
 }
+
+// the proto form of a nested statement's head: (kind, label)
+func blockHead(s Stmt) (string, string) {
+	switch s.Kw {
+	case "if", "else":
+		return "cond", strings.TrimSpace(s.Kw + " " + s.Text)
+	case "for", "loop", "alt":
+		return "group", strings.TrimSpace(s.Kw + " " + s.Text)
+	case "while":
+		return "loop:WHILE", s.Text
+	case "until":
+		return "loop:UNTIL", s.Text
+	case "for each":
+		return "foreach", s.Text
+	}
+	return "group", s.Text
+}
+
+func (t *interner) stmtTokens(body []Stmt, it *[]string) {
+	for _, s := range body {
+		switch s.Kind {
+		case 0:
+			*it = append(*it, "SA "+t.id("a:"+s.Text))
+		case 1:
+			*it = append(*it, fmt.Sprintf("SC %s %s", t.list(s.App), t.id("e:"+s.Text)))
+		case 2:
+			*it = append(*it, "SR "+t.id("r:"+s.Text))
+		case 3:
+			k, l := blockHead(s)
+			*it = append(*it, fmt.Sprintf("SOpen %s %s", t.id("k:"+k), t.id("l:"+l)))
+			t.stmtTokens(s.Body, it)
+			*it = append(*it, "SClose")
+		case 4:
+			*it = append(*it, fmt.Sprintf("SOpen %s %s", t.id("k:alt"), t.id("l:")))
+			for _, c := range s.Choices {
+				*it = append(*it, fmt.Sprintf("SOpen %s %s", t.id("k:choice"), t.id("l:"+c.Label)))
+				t.stmtTokens(c.Body, it)
+				*it = append(*it, "SClose")
+			}
+			*it = append(*it, "SClose")
+		}
+	}
+}
+func (t *interner) gStmts(body []Stmt) string {
+	var it []string
+	t.stmtTokens(body, &it)
+	return "[" + strings.Join(it, ";") + "]"
+}
+func (t *interner) gParams(pre string, ps []Param) string {
+	it := make([]string, len(ps))
+	for i, p := range ps {
+		s := pre + p.Name + ":" + tySpelling(p.Ty)
+		if p.Opt {
+			s += "?"
+		}
+		it[i] = t.id(s)
+	}
+	return "[" + strings.Join(it, ";") + "]"
+}
+func segText(s Seg) string {
+	if s.Ty != "" {
+		return "{" + s.Name + "}"
+	}
+	return s.Name
+}
 func (t *interner) gRest(r *RNode) string {
-	var ms, ss []string
+	var ms, ss, segs, vars []string
+	for _, s := range r.segs() {
+		segs = append(segs, segText(s))
+		if s.Ty != "" {
+			vars = append(vars, t.id("u:"+s.Name+":"+tySpelling(s.Ty)))
+		}
+	}
 	for _, m := range r.Methods {
-		ms = append(ms, fmt.Sprintf("(%s, %s, %s)", t.id(m.Verb), t.gEntries(m.A), t.gStmts(m.Body)))
+		ms = append(ms, fmt.Sprintf("MD %s %s %s %s %s %s", t.id(m.Verb), t.gEntries(m.A), t.gAnnos(m.Annos), t.gParams("p:", m.Params), t.gParams("q:", m.Query), t.gStmts(m.Body)))
 	}
 	for _, s := range r.Subs {
 		ss = append(ss, t.gRest(s))
 	}
-	return fmt.Sprintf("RN %s [%s] [%s]", t.list(r.Segs), strings.Join(ms, ";"), strings.Join(ss, ";"))
+	return fmt.Sprintf("RN %s [%s] [%s] [%s]", t.list(segs), strings.Join(vars, ";"), strings.Join(ms, ";"), strings.Join(ss, ";"))
 }
 
 // the spelling of a field type as the projection names it (see projType)
 func tySpelling(ty string) string {
+	if r, ok := strings.CutPrefix(ty, "sequence of "); ok {
+		return "seq:" + tySpelling(r)
+	}
+	if r, ok := strings.CutPrefix(ty, "set of "); ok {
+		return "set:" + tySpelling(r)
+	}
 	prim := map[string]string{"int": "INT", "string": "STRING", "bool": "BOOL", "date": "DATE", "float": "FLOAT", "decimal": "DECIMAL", "datetime": "DATETIME", "bytes": "BYTES", "any": "ANY"}
 	if p, ok := prim[ty]; ok {
 		return "prim:" + p
 	}
 	return "ref:" + ty
 }
+
+func appId(parts []string) string { return "app:" + strings.Join(parts, " :: ") }
 
 func (t *interner) gMember(m Member) string {
 	switch m.Kind {
@@ -664,21 +1037,39 @@ func (t *interner) gMember(m Member) string {
 		for _, f := range m.Fields {
 			fs = append(fs, fmt.Sprintf("FD %s %s %s %s", t.id(f.Name), t.id(tySpelling(f.Ty)), common.GBool(f.Opt), t.gEntries(f.A)))
 		}
-		return fmt.Sprintf("MT %s %s %s [%s]", common.GBool(m.Kind == "table"), t.id(m.Name), t.gEntries(m.A), strings.Join(fs, ";"))
+		return fmt.Sprintf("MT %s %s %s %s [%s]", common.GBool(m.Kind == "table"), t.id(m.Name), t.gEntries(m.A), t.gAnnos(m.Annos), strings.Join(fs, ";"))
 	case "enum":
 		var it []string
 		for _, i := range m.Items {
 			it = append(it, fmt.Sprintf("(%s, %s)", t.id(i.Name), common.GZ(i.Val)))
 		}
-		return fmt.Sprintf("ME %s %s [%s]", t.id(m.Name), t.gEntries(m.A), strings.Join(it, ";"))
+		return fmt.Sprintf("ME %s %s %s [%s]", t.id(m.Name), t.gEntries(m.A), t.gAnnos(m.Annos), strings.Join(it, ";"))
+	case "alias":
+		return fmt.Sprintf("MAl %s %s %s %s", t.id(m.Name), t.gEntries(m.A), t.gAnnos(m.Annos), t.id(tySpelling(m.Ty)))
+	case "union":
+		var al []string
+		for _, a := range m.Alts {
+			al = append(al, tySpelling(a))
+		}
+		return fmt.Sprintf("MU %s %s %s", t.id(m.Name), t.gEntries(m.A), t.list(al))
 	case "ep":
-		return fmt.Sprintf("MP %s %s %s", t.id(m.Name), t.gEntries(m.A), t.gStmts(m.Body))
+		return fmt.Sprintf("MP %s %s %s %s %s", t.id("e:"+m.Name), t.gEntries(m.A), t.gAnnos(m.Annos), t.gParams("p:", m.Params), t.gStmts(m.Body))
 	case "event":
-		return fmt.Sprintf("MV %s %s", t.id(m.Name), t.gStmts(m.Body))
+		return fmt.Sprintf("MV %s %s %s", t.id("e:"+m.Name), t.gParams("p:", m.Params), t.gStmts(m.Body))
+	case "mixin":
+		return "MX " + t.id(appId(m.Target))
+	case "sub":
+		return fmt.Sprintf("MS %s %s %s %s %s %s", t.id("e:"+subName(m)), t.list(m.Target), t.id("e:"+m.Name), t.gEntries(m.A), t.gAnnos(m.Annos), t.gStmts(m.Body))
+	case "anno":
+		return "MA " + t.gAnno(*m.Anno)
 	default:
 		return "MR (" + t.gRest(m.Rest) + ")"
 	}
 }
+
+// subName: the name of the subscriber's endpoint, `Pub :: X -> Evt`
+func subName(m Member) string { return strings.Join(m.Target, " :: ") + " -> " + m.Name }
+
 func (t *interner) gLayout(l Layout) string {
 	var fs []string
 	for _, f := range l.Files {
@@ -732,34 +1123,83 @@ func (t *interner) gOAttrs(m map[string]*sysl.Attribute) string {
 }
 
 func projType(ty *sysl.Type) string {
-	switch x := ty.Type.(type) {
+	s := ""
+	switch x := ty.GetType().(type) {
 	case *sysl.Type_Primitive_:
-		s := "prim:" + x.Primitive.String()
-		if len(ty.Constraint) > 0 {
-			s += "+constraint"
-		}
-		return s
+		s = "prim:" + x.Primitive.String()
 	case *sysl.Type_TypeRef:
-		return "ref:" + strings.Join(append(append([]string{}, x.TypeRef.GetRef().GetAppname().GetPart()...), x.TypeRef.GetRef().GetPath()...), ".")
+		s = "ref:" + strings.Join(append(append([]string{}, x.TypeRef.GetRef().GetAppname().GetPart()...), x.TypeRef.GetRef().GetPath()...), ".")
+	case *sysl.Type_Sequence:
+		s = "seq:" + projType(x.Sequence)
+	case *sysl.Type_Set:
+		s = "set:" + projType(x.Set)
 	case nil:
-		return "nil"
+		s = "nil"
+	default:
+		s = fmt.Sprintf("other:%T", ty.Type)
 	}
-	return fmt.Sprintf("other:%T", ty.Type)
+	if len(ty.GetConstraint()) > 0 {
+		s += "+constraint"
+	}
+	return s
 }
 
-func (t *interner) gOStmts(ss []*sysl.Statement) string {
-	var it []string
+func (t *interner) oStmtTokens(ss []*sysl.Statement, it *[]string) {
+	open := func(k, l string) { *it = append(*it, fmt.Sprintf("SOpen %s %s", t.id("k:"+k), t.id("l:"+l))) }
 	for _, s := range ss {
 		switch x := s.Stmt.(type) {
 		case *sysl.Statement_Action:
-			it = append(it, "SA "+t.id("a:"+x.Action.Action))
+			*it = append(*it, "SA "+t.id("a:"+x.Action.Action))
 		case *sysl.Statement_Call:
-			it = append(it, fmt.Sprintf("SC %s %s", t.list(x.Call.GetTarget().GetPart()), t.id("e:"+x.Call.Endpoint)))
+			*it = append(*it, fmt.Sprintf("SC %s %s", t.list(x.Call.GetTarget().GetPart()), t.id("e:"+x.Call.Endpoint)))
 		case *sysl.Statement_Ret:
-			it = append(it, "SR "+t.id("r:"+x.Ret.Payload))
+			*it = append(*it, "SR "+t.id("r:"+x.Ret.Payload))
+		case *sysl.Statement_Cond:
+			open("cond", x.Cond.Test)
+			t.oStmtTokens(x.Cond.Stmt, it)
+			*it = append(*it, "SClose")
+		case *sysl.Statement_Group:
+			open("group", x.Group.Title)
+			t.oStmtTokens(x.Group.Stmt, it)
+			*it = append(*it, "SClose")
+		case *sysl.Statement_Loop:
+			open("loop:"+x.Loop.Mode.String(), x.Loop.Criterion)
+			t.oStmtTokens(x.Loop.Stmt, it)
+			*it = append(*it, "SClose")
+		case *sysl.Statement_Foreach:
+			open("foreach", x.Foreach.Collection)
+			t.oStmtTokens(x.Foreach.Stmt, it)
+			*it = append(*it, "SClose")
+		case *sysl.Statement_Alt:
+			open("alt", "")
+			for _, c := range x.Alt.Choice {
+				open("choice", c.Cond)
+				t.oStmtTokens(c.Stmt, it)
+				*it = append(*it, "SClose")
+			}
+			*it = append(*it, "SClose")
 		default:
-			it = append(it, "SA "+t.id(fmt.Sprintf("?%T", s.Stmt)))
+			*it = append(*it, "SA "+t.id(fmt.Sprintf("?%T", s.Stmt)))
 		}
+		if len(s.Attrs) > 0 {
+			*it = append(*it, "SA "+t.id("?statement-attrs"))
+		}
+	}
+}
+func (t *interner) gOStmts(ss []*sysl.Statement) string {
+	var it []string
+	t.oStmtTokens(ss, &it)
+	return "[" + strings.Join(it, ";") + "]"
+}
+
+func (t *interner) gOParams(pre string, ps []*sysl.Endpoint_RestParams_QueryParam) string {
+	it := make([]string, len(ps))
+	for i, p := range ps {
+		s := pre + p.Name + ":" + projType(p.Type)
+		if p.GetType().GetOpt() {
+			s += "?"
+		}
+		it[i] = t.id(s)
 	}
 	return "[" + strings.Join(it, ";") + "]"
 }
@@ -795,6 +1235,22 @@ func (t *interner) gObs(m *sysl.Module) string {
 					its = append(its, fmt.Sprintf("(%s, %s)", t.id(in), common.GZ(x.Enum.Items[in])))
 				}
 				tys = append(tys, fmt.Sprintf("(%s, OE %s [%s])", t.id(tn), t.gOAttrs(ty.Attrs), strings.Join(its, ";")))
+			case *sysl.Type_OneOf_:
+				var al []string
+				for _, o := range x.OneOf.Type {
+					s := projType(o)
+					if len(o.Attrs) > 0 {
+						s += "+attrs"
+					}
+					al = append(al, s)
+				}
+				tys = append(tys, fmt.Sprintf("(%s, OU %s %s)", t.id(tn), t.gOAttrs(ty.Attrs), t.list(al)))
+			case *sysl.Type_Primitive_, *sysl.Type_TypeRef, *sysl.Type_Sequence, *sysl.Type_Set:
+				s := projType(ty)
+				if ty.Opt {
+					s += "?"
+				}
+				tys = append(tys, fmt.Sprintf("(%s, OAl %s %s)", t.id(tn), t.gOAttrs(ty.Attrs), t.id(s)))
 			default:
 				// a kind the model does not speak about: shows as a mismatch
 				tys = append(tys, fmt.Sprintf("(%s, OE [(%s, VS %s)] [])", t.id(tn), t.id("?kind"), t.id(fmt.Sprintf("?%T", ty.Type))))
@@ -803,18 +1259,44 @@ func (t *interner) gObs(m *sysl.Module) string {
 		var eps []string
 		for _, en := range keysOf(a.Endpoints) {
 			e := a.Endpoints[en]
-			key := fmt.Sprintf("(None, [%s])", t.id(en))
+			key := fmt.Sprintf("(None, [%s])", t.id("e:"+en))
 			rest := e.RestParams != nil
+			query, url := "[]", "[]"
 			if rest {
 				verb, path, _ := strings.Cut(en, " ")
 				key = fmt.Sprintf("(Some %s, %s)", t.id(verb), t.list(strings.Split(strings.TrimPrefix(path, "/"), "/")))
 				if e.RestParams.Path != path || e.RestParams.Method.String() != verb || e.Name != en {
 					key = fmt.Sprintf("(Some %s, [%s])", t.id("?inconsistent"), t.id(en))
 				}
+				query, url = t.gOParams("q:", e.RestParams.QueryParam), t.gOParams("u:", e.RestParams.UrlParam)
+			} else if e.Name != en {
+				key = fmt.Sprintf("(None, [%s])", t.id("?name:"+e.Name))
 			}
-			eps = append(eps, fmt.Sprintf("(%s, (%s, %s, %s, %s))", key, common.GBool(e.IsPubsub), common.GBool(rest), t.gOAttrs(e.Attrs), t.gOStmts(e.Stmt)))
+			src := "None"
+			if e.Source != nil {
+				src = "(Some " + t.list(e.Source.Part) + ")"
+			}
+			var ps []string
+			for _, p := range e.Param {
+				ps = append(ps, t.id("p:"+p.Name+":"+projType(p.Type)))
+			}
+			extra := ""
+			if e.LongName != "" || e.Docstring != "" || len(e.Flag) > 0 {
+				extra = ";SA " + t.id("?endpoint-extra")
+			}
+			st := t.gOStmts(e.Stmt)
+			if extra != "" {
+				st = "[" + strings.TrimPrefix(strings.TrimSuffix(st, "]"), "[") + extra + "]"
+				st = strings.Replace(st, "[;", "[", 1)
+			}
+			eps = append(eps, fmt.Sprintf("(%s, OEP %s %s %s %s [%s] %s %s %s)", key, common.GBool(e.IsPubsub), common.GBool(rest), src, t.gOAttrs(e.Attrs),
+				strings.Join(ps, ";"), query, url, st))
 		}
-		apps = append(apps, fmt.Sprintf("OA %s %s %s\n    [%s]\n    [%s]", t.list(a.GetName().GetPart()), long, t.gOAttrs(a.Attrs),
+		var mix []string
+		for _, mx := range a.Mixin2 {
+			mix = append(mix, appId(mx.GetName().GetPart()))
+		}
+		apps = append(apps, fmt.Sprintf("OA %s %s %s %s\n    [%s]\n    [%s]", t.list(a.GetName().GetPart()), long, t.gOAttrs(a.Attrs), t.list(mix),
 			strings.Join(tys, ";\n     "), strings.Join(eps, ";\n     ")))
 	}
 	return "(Some [" + strings.Join(apps, ";\n   ") + "])"
@@ -858,19 +1340,88 @@ func (g gen) attrs(tagPool []string, maxTags, nvChance int) Attrs {
 			a.NV = append(a.NV, NV{k, fmt.Sprintf("v%d", g.r.Intn(4))})
 		}
 	}
+	if g.r.Chance(1, 2*nvChance) {
+		a.Arr = append(a.Arr, NA{"labels", g.strs("l", g.r.Intn(3))})
+	}
 	return a
 }
 
-func (g gen) body(apps [][]string, min int) []Stmt {
+func (g gen) strs(pre string, n int) []string {
+	o := make([]string, n)
+	for i := range o {
+		o[i] = fmt.Sprintf("%s%d", pre, g.r.Intn(5))
+	}
+	return o
+}
+
+// the names annotations use: disjoint from the names header attributes use (owner, desc, json_tag, labels)
+var annoKeys = []string{"note", "version", "team", "contact", "langs", "since", "x-tags"}
+
+// annos: n annotations with distinct names not in `used` (which is extended): strings (sometimes empty), arrays
+// (sometimes empty)
+func (g gen) annos(n int, used map[string]bool) []Anno {
+	var out []Anno
+	for i := 0; i < n; i++ {
+		k := annoKeys[g.r.Intn(len(annoKeys))]
+		if used[k] {
+			continue
+		}
+		used[k] = true
+		a := Anno{K: k}
+		switch g.r.Intn(8) {
+		case 0:
+			a.V = "" // an empty value: overwritten by a later one, but there is none
+		case 1, 2:
+			a.IsArr, a.Arr = true, g.strs("e", g.r.Intn(3))
+		default:
+			a.V = fmt.Sprintf("text %d", g.r.Intn(6))
+		}
+		out = append(out, a)
+	}
+	return out
+}
+
+func (g gen) params(max int) []Param {
+	var ps []Param
+	for i, n := 0, g.r.Intn(max+1); i < n; i++ {
+		ty := prims[g.r.Intn(len(prims))]
+		if g.r.Chance(1, 4) {
+			ty = fmt.Sprintf("T%d", 1+g.r.Intn(3))
+		}
+		ps = append(ps, Param{Name: fmt.Sprintf("a%d", i+1), Ty: ty})
+	}
+	return ps
+}
+
+func (g gen) body(apps [][]string, min int) []Stmt { return g.bodyD(apps, min, 2) }
+
+func (g gen) bodyD(apps [][]string, min, depth int) []Stmt {
 	n := min + g.r.Intn(3)
 	var b []Stmt
 	for i := 0; i < n; i++ {
-		switch g.r.Intn(4) {
-		case 0:
+		switch k := g.r.Intn(10); {
+		case k < 2:
 			a := apps[g.r.Intn(len(apps))]
 			b = append(b, Stmt{Kind: 1, Text: fmt.Sprintf("Ep%d", 1+g.r.Intn(3)), App: a})
-		case 1:
+		case k < 4:
 			b = append(b, Stmt{Kind: 2, Text: []string{"ok <: string", "error <: int", "ok <: T1"}[g.r.Intn(3)]})
+		case k < 6 && depth > 0:
+			kw := []string{"if", "for", "loop", "alt", "while", "until", "for each", "group"}[g.r.Intn(8)]
+			s := Stmt{Kind: 3, Kw: kw, Text: fmt.Sprintf("c%d", g.r.Intn(9)), Body: g.bodyD(apps, 1, depth-1)}
+			b = append(b, s)
+			if kw == "if" && g.r.Bool() {
+				e := Stmt{Kind: 3, Kw: "else", Body: g.bodyD(apps, 1, depth-1)}
+				if g.r.Chance(1, 3) {
+					e.Text = fmt.Sprintf("c%d", g.r.Intn(9))
+				}
+				b = append(b, e)
+			}
+		case k < 7 && depth > 0:
+			s := Stmt{Kind: 4}
+			for c, nc := 0, 1+g.r.Intn(2); c < nc; c++ {
+				s.Choices = append(s.Choices, Choice{Label: fmt.Sprintf("case%d", c), Body: g.bodyD(apps, 1, depth-1)})
+			}
+			b = append(b, s)
 		default:
 			b = append(b, Stmt{Kind: 0, Text: fmt.Sprintf("step%d", g.r.Intn(9))})
 		}
@@ -883,7 +1434,11 @@ func (g gen) rest(apps [][]string, depth int, id *int) *RNode {
 	ns := 1 + g.r.Intn(2)
 	for i := 0; i < ns; i++ {
 		*id++
-		n.Segs = append(n.Segs, fmt.Sprintf("p%d", *id))
+		s := Seg{Name: fmt.Sprintf("p%d", *id)}
+		if g.r.Chance(1, 4) {
+			s = Seg{Name: fmt.Sprintf("v%d", *id), Ty: []string{"int", "string", "T1"}[g.r.Intn(3)]}
+		}
+		n.PSegs = append(n.PSegs, s)
 	}
 	perm := g.r.Intn(len(verbs))
 	nm := g.r.Intn(3)
@@ -891,7 +1446,23 @@ func (g gen) rest(apps [][]string, depth int, id *int) *RNode {
 		nm = 1
 	}
 	for i := 0; i < nm; i++ {
-		n.Methods = append(n.Methods, Method{Verb: verbs[(perm+i)%len(verbs)], A: g.attrs([]string{"x", "y"}, 1, 6), Body: g.body(apps, 1)})
+		m := Method{Verb: verbs[(perm+i)%len(verbs)], A: g.attrs([]string{"x", "y"}, 1, 6), Body: g.body(apps, 1)}
+		if g.r.Chance(1, 3) {
+			m.Params = g.params(2)
+		}
+		if g.r.Chance(1, 3) {
+			for q, nq := 0, 1+g.r.Intn(2); q < nq; q++ {
+				m.Query = append(m.Query, Param{Name: fmt.Sprintf("q%d", q), Ty: prims[g.r.Intn(len(prims))], Opt: g.r.Chance(1, 3)})
+			}
+		}
+		if g.r.Chance(1, 3) {
+			m.Annos = g.annos(1+g.r.Intn(2), map[string]bool{})
+			if g.r.Chance(1, 3) {
+				// a method always has "patterns" (["rest"]): `@patterns = [..]` appends
+				m.Annos = append(m.Annos, Anno{K: "patterns", IsArr: true, Arr: g.strs("pt", 1+g.r.Intn(2))})
+			}
+		}
+		n.Methods = append(n.Methods, m)
 	}
 	if depth > 0 {
 		k := g.r.Intn(3)
@@ -905,6 +1476,9 @@ func (g gen) rest(apps [][]string, depth int, id *int) *RNode {
 	return n
 }
 
+var mixPool = [][]string{{"Mx1"}, {"Mx2"}, {"Ns", "Mx3"}}
+var aliasTys = []string{"int", "string", "T1", "sequence of string", "set of int", "date"}
+
 func (g gen) spec(maxApps, maxMembers int) Spec {
 	na := 1 + g.r.Intn(maxApps)
 	perm := g.r.Intn(len(appPool))
@@ -913,6 +1487,9 @@ func (g gen) spec(maxApps, maxMembers int) Spec {
 		names = append(names, appPool[(perm+i)%len(appPool)])
 	}
 	var s Spec
+	extra := map[int][]Member{} // members other apps get: the `<-> Evt: ...` a subscription refers to
+	mixUsed := map[string]bool{}
+	published := 0
 	for i := 0; i < na; i++ {
 		a := App{Parts: names[i], A: g.attrs([]string{"x", "y", "abstract"}, 2, 3)}
 		if g.r.Chance(1, 3) {
@@ -922,10 +1499,11 @@ func (g gen) spec(maxApps, maxMembers int) Spec {
 		if nm < 2 && g.r.Chance(4, 5) {
 			nm = 2 + g.r.Intn(2)
 		}
-		nt, ne, np, nv, rid := 0, 0, 0, 0, 0
+		nt, ne, np, nv, nal, nu, rid := 0, 0, 0, 0, 0, 0, 0
+		appAnno := map[string]bool{}
 		for j := 0; j < nm; j++ {
-			switch k := g.r.Intn(12); {
-			case k < 5: // type / table
+			switch k := g.r.Intn(20); {
+			case k < 6: // type / table
 				nt++
 				m := Member{Kind: "type", Name: fmt.Sprintf("T%d", nt), A: g.attrs([]string{"x", "y"}, 2, 5)}
 				if g.r.Chance(1, 4) {
@@ -940,6 +1518,9 @@ func (g gen) spec(maxApps, maxMembers int) Spec {
 					if g.r.Chance(1, 10) {
 						fd.Name = fmt.Sprintf("f.%d", f+1)
 					}
+					if g.r.Chance(1, 10) {
+						fd.Name = fmt.Sprintf("f-%d", f+1)
+					}
 					if g.r.Chance(1, 6) {
 						fd.Ty = fmt.Sprintf("T%d", 1+g.r.Intn(3))
 					}
@@ -948,8 +1529,11 @@ func (g gen) spec(maxApps, maxMembers int) Spec {
 					}
 					m.Fields = append(m.Fields, fd)
 				}
+				if g.r.Chance(1, 3) {
+					m.Annos = g.annos(1+g.r.Intn(3), map[string]bool{})
+				}
 				a.Members = append(a.Members, m)
-			case k < 6:
+			case k < 7:
 				ne++
 				m := Member{Kind: "enum", Name: fmt.Sprintf("E%d", ne), A: g.attrs([]string{"x"}, 1, 6)}
 				if g.r.Chance(1, 5) {
@@ -959,20 +1543,218 @@ func (g gen) spec(maxApps, maxMembers int) Spec {
 				for f := 0; f < ni; f++ {
 					m.Items = append(m.Items, Item{fmt.Sprintf("I%d", f), int64(g.r.Intn(100000))})
 				}
+				if g.r.Chance(1, 3) {
+					m.Annos = g.annos(1, map[string]bool{})
+				}
 				a.Members = append(a.Members, m)
 			case k < 8:
-				np++
-				a.Members = append(a.Members, Member{Kind: "ep", Name: fmt.Sprintf("Ep%d", np), A: g.attrs([]string{"x", "y"}, 1, 5), Body: g.body(names, 1)})
+				nal++
+				m := Member{Kind: "alias", Name: fmt.Sprintf("Al%d", nal), A: g.attrs([]string{"x"}, 1, 6), Ty: aliasTys[g.r.Intn(len(aliasTys))]}
+				if g.r.Chance(1, 5) {
+					m.Name = fmt.Sprintf("Al.%d", nal)
+				}
+				if g.r.Chance(1, 3) {
+					m.Annos = g.annos(1, map[string]bool{})
+				}
+				a.Members = append(a.Members, m)
 			case k < 9:
+				nu++
+				m := Member{Kind: "union", Name: fmt.Sprintf("U%d", nu), A: g.attrs([]string{"x"}, 1, 6)}
+				if g.r.Chance(1, 5) {
+					m.Name = fmt.Sprintf("U:%d", nu)
+				}
+				p := g.r.Intn(4)
+				for x, nx := 0, g.r.Intn(4); x < nx; x++ {
+					m.Alts = append(m.Alts, []string{"int", "T1", "string", "T2"}[(p+x)%4])
+				}
+				a.Members = append(a.Members, m)
+			case k < 12:
+				np++
+				m := Member{Kind: "ep", Name: fmt.Sprintf("Ep%d", np), A: g.attrs([]string{"x", "y"}, 1, 5), Body: g.body(names, 1)}
+				if g.r.Chance(1, 3) {
+					m.Params = g.params(2)
+				}
+				if g.r.Chance(1, 3) {
+					m.Annos = g.annos(1+g.r.Intn(2), map[string]bool{})
+				}
+				a.Members = append(a.Members, m)
+			case k < 13:
 				nv++
-				a.Members = append(a.Members, Member{Kind: "event", Name: fmt.Sprintf("Ev%d", nv), Body: g.body(names, 1)})
-			default:
+				m := Member{Kind: "event", Name: fmt.Sprintf("Ev%d", nv), Body: g.body(names, 1)}
+				if g.r.Chance(1, 4) {
+					m.Params = g.params(1)
+				}
+				a.Members = append(a.Members, m)
+			case k < 16:
 				a.Members = append(a.Members, Member{Kind: "rest", Rest: g.rest(names, g.r.Intn(3), &rid)})
+			case k < 17:
+				t := mixPool[g.r.Intn(len(mixPool))]
+				a.Members = append(a.Members, Member{Kind: "mixin", Target: t})
+				mixUsed[strings.Join(t, " :: ")] = true
+			case k < 18:
+				// a subscription; every event has at most one subscriber (the well-formed streams)
+				published++
+				pub := []string{"Ext", "Pub"}
+				pi := -1
+				if g.r.Chance(2, 3) {
+					pi = g.r.Intn(na)
+					pub = names[pi]
+				}
+				m := Member{Kind: "sub", Target: pub, Name: fmt.Sprintf("Pb%d", published), A: g.attrs([]string{"x"}, 1, 6)}
+				if g.r.Chance(1, 3) {
+					m.Dots = true
+				} else {
+					m.Body = g.bodyD(names, 1, 1)
+					if g.r.Chance(1, 3) {
+						m.Annos = g.annos(1, map[string]bool{})
+					}
+				}
+				a.Members = append(a.Members, m)
+				if pi >= 0 && g.r.Chance(2, 3) {
+					extra[pi] = append(extra[pi], Member{Kind: "event", Name: m.Name, Dots: true})
+				}
+			default:
+				if as := g.annos(1, appAnno); len(as) == 1 {
+					a.Members = append(a.Members, Member{Kind: "anno", Anno: &as[0]})
+				}
 			}
 		}
 		s.Apps = append(s.Apps, a)
 	}
+	for i, ms := range extra {
+		s.Apps[i].Members = append(s.Apps[i].Members, ms...)
+	}
+	// the applications mixed in: declared half of the time (abstract, endpoints only - see the "mixtypes" stream
+	// for mixed-in types, which postProcess copies)
+	for _, t := range mixPool {
+		if mixUsed[strings.Join(t, " :: ")] && g.r.Bool() {
+			s.Apps = append(s.Apps, App{Parts: t, A: Attrs{Tags: []string{"abstract"}},
+				Members: []Member{{Kind: "ep", Name: "Shared", Body: []Stmt{{Kind: 0, Text: "step1"}}}}})
+		}
+	}
 	return s
+}
+
+// addDups: declarations met again (outside the headline theorem's hypotheses, inside those of the order-preserving
+// one): an annotation name set twice or named like a header attribute, an alias / union / enum declared twice, a field
+// declared twice (the second time without ~pk), an endpoint declared twice, a second subscriber of an event
+func (g gen) addDups(s Spec) Spec {
+	for ai := range s.Apps {
+		a := &s.Apps[ai]
+		ms := append([]Member{}, a.Members...)
+		for _, m := range a.Members {
+			if !g.r.Chance(1, 3) {
+				continue
+			}
+			switch m.Kind {
+			case "anno":
+				c := Anno{K: m.Anno.K, V: fmt.Sprintf("again %d", g.r.Intn(3))}
+				if g.r.Chance(1, 3) {
+					c = Anno{K: m.Anno.K, IsArr: true, Arr: g.strs("h", 1+g.r.Intn(2))}
+				}
+				ms = append(ms, Member{Kind: "anno", Anno: &c})
+			case "alias":
+				ms = append(ms, Member{Kind: "alias", Name: m.Name, Ty: "bool"})
+			case "union":
+				ms = append(ms, Member{Kind: "union", Name: m.Name, Alts: []string{"date"}})
+			case "enum":
+				ms = append(ms, Member{Kind: "enum", Name: m.Name, Items: []Item{{"Z", 1}}})
+			case "ep":
+				c := m
+				c.A, c.Annos = Attrs{}, nil
+				c.Body, c.Params = g.body([][]string{a.Parts}, 1), g.params(1)
+				ms = append(ms, c)
+			case "sub":
+				c := m
+				c.Dots, c.Annos, c.Body = false, nil, g.bodyD([][]string{a.Parts}, 1, 0)
+				ms = append(ms, c)
+			case "mixin":
+				ms = append(ms, m)
+			}
+		}
+		for mi, m := range ms {
+			if (m.Kind == "type" || m.Kind == "table") && len(m.Fields) > 0 && g.r.Chance(1, 3) {
+				f := m.Fields[g.r.Intn(len(m.Fields))]
+				f.Ty, f.Opt, f.A = prims[g.r.Intn(len(prims))], g.r.Chance(1, 3), g.attrs([]string{"x", "z"}, 2, 2)
+				ms[mi].Fields = append(append([]Field{}, m.Fields...), f)
+				ms[mi].Annos = append(append([]Anno{}, m.Annos...), Anno{K: "desc", V: "by annotation"}, Anno{K: "note", V: "n1"}, Anno{K: "note", V: "n2"})
+			}
+		}
+		if len(a.A.NV) > 0 && g.r.Chance(1, 2) { // an application annotation named like a header attribute
+			ms = append(ms, Member{Kind: "anno", Anno: &Anno{K: a.A.NV[0].K, V: "by annotation"}})
+		}
+		a.Members = ms
+	}
+	return s
+}
+
+// mixTypes: an application mixes in an abstract application that declares types (postProcess copies them into the
+// mixing application unless it has a type of that name) - also types the mixing application declares itself
+func (g gen) mixTypes(s Spec) Spec {
+	src := App{Parts: []string{"Mx1"}, A: Attrs{Tags: []string{"abstract"}}}
+	for i, n := 0, 1+g.r.Intn(3); i < n; i++ {
+		m := Member{Kind: "type", Name: fmt.Sprintf("T%d", 1+g.r.Intn(4)), Fields: []Field{{Name: "m1", Ty: "int"}, {Name: "m2", Ty: "string", A: Attrs{Tags: []string{"pk"}}}}}
+		if g.r.Bool() {
+			m.Kind = "table"
+		}
+		dup := false
+		for _, x := range src.Members {
+			dup = dup || x.Name == m.Name
+		}
+		if !dup {
+			src.Members = append(src.Members, m)
+		}
+	}
+	var apps []App
+	for _, a := range s.Apps {
+		if len(a.Parts) == 1 && a.Parts[0] == "Mx1" {
+			continue
+		}
+		apps = append(apps, a)
+	}
+	k := g.r.Intn(len(apps))
+	apps[k].Members = append(append([]Member{}, apps[k].Members...), Member{Kind: "mixin", Target: []string{"Mx1"}})
+	s.Apps = append(apps, src)
+	return s
+}
+
+// withPB: one imported leaf file of the layout is handed to the parser as a compiled module
+func (g gen) withPB(l Layout) (Layout, bool) {
+	imported := map[string]bool{}
+	for _, f := range l.Files {
+		for _, i := range f.Imports {
+			imported[i] = true
+		}
+	}
+	var leaves []int
+	for i, f := range l.Files {
+		if f.Name != l.Root && len(f.Imports) == 0 && imported[f.Name] {
+			leaves = append(leaves, i)
+		}
+	}
+	if len(leaves) == 0 {
+		return l, false
+	}
+	k := leaves[g.r.Intn(len(leaves))]
+	format := []string{"pb", "pb.json", "textpb"}[g.r.Intn(3)]
+	oldName := l.Files[k].Name
+	newName := strings.TrimSuffix(oldName, ".sysl") + "." + format
+	files := make([]File, len(l.Files))
+	for i, f := range l.Files {
+		imps := make([]string, len(f.Imports))
+		for j, im := range f.Imports {
+			if im == oldName {
+				im = newName
+			}
+			imps[j] = im
+		}
+		f.Imports = imps
+		if i == k {
+			f.Name, f.PB, f.Noise = newName, format, nil
+		}
+		files[i] = f
+	}
+	return Layout{Root: l.Root, Files: files}, true
 }
 
 func joined(s Spec) Layout {
@@ -1039,9 +1821,24 @@ func (g gen) split(s Spec, o splitOpts) Layout {
 					frs[assign[i]].Fields = append(frs[assign[i]].Fields, f)
 				}
 				frs[g.r.Intn(nfr)].A = m.A
+				// the annotations of the type go to any share (in declaration order when the split is ordered)
+				aassign := make([]int, len(m.Annos))
+				for i := range aassign {
+					aassign[i] = g.r.Intn(nfr)
+				}
+				if o.ordered {
+					sort.Ints(aassign)
+					for i := range frs {
+						frs[i].A = Attrs{}
+					}
+					frs[0].A = m.A // the header attributes stay on the first share, as in the joined form
+				}
+				for i, an := range m.Annos {
+					frs[aassign[i]].Annos = append(frs[aassign[i]].Annos, an)
+				}
 				pieces = append(pieces, frs...)
 			case m.Kind == "rest" && o.splitFields && len(m.Rest.Methods)+len(m.Rest.Subs) >= 2 && g.r.Chance(1, 2):
-				r1, r2 := &RNode{Segs: m.Rest.Segs}, &RNode{Segs: m.Rest.Segs}
+				r1, r2 := &RNode{Segs: m.Rest.Segs, PSegs: m.Rest.PSegs}, &RNode{Segs: m.Rest.Segs, PSegs: m.Rest.PSegs}
 				n := 0
 				total := len(m.Rest.Methods) + len(m.Rest.Subs)
 				first := g.r.Intn(total) // this child goes to r1, the next to r2, the others at random
@@ -1139,7 +1936,7 @@ func (g gen) split(s Spec, o splitOpts) Layout {
 		for i := range files {
 			g.noise(&files[i])
 		}
-		return Layout{Root: "root.sysl", Files: files}
+		return g.respell(Layout{Root: "root.sysl", Files: files})
 	}
 	nf := 1 + g.r.Intn(o.maxFiles)
 	if nf == 1 && o.maxFiles > 1 && g.r.Chance(2, 3) {
@@ -1230,7 +2027,52 @@ func (g gen) split(s Spec, o splitOpts) Layout {
 		shuffle(g.r, files[i].Imports)
 		g.noise(&files[i])
 	}
-	return Layout{Root: "root.sysl", Files: files}
+	return g.respell(Layout{Root: "root.sysl", Files: files})
+}
+
+// respell: every occurrence of an application / type / table / enum / alias / union / field name and of the static
+// segments of a REST path may be written with one more %XX escape than needed (`a%2Db` for `a-b`): the same name
+func (g gen) respell(l Layout) Layout {
+	v := func() int {
+		if g.r.Chance(1, 4) {
+			return 1 + g.r.Intn(6)
+		}
+		return 0
+	}
+	var rest func(r *RNode) *RNode
+	rest = func(r *RNode) *RNode {
+		c := *r
+		c.Sp = v()
+		c.Subs = nil
+		for _, s := range r.Subs {
+			c.Subs = append(c.Subs, rest(s))
+		}
+		return &c
+	}
+	for fi := range l.Files {
+		for bi := range l.Files[fi].Blocks {
+			b := &l.Files[fi].Blocks[bi]
+			b.Sp = v()
+			ms := make([]Member, len(b.Members))
+			for mi, m := range b.Members {
+				switch m.Kind {
+				case "type", "table", "enum", "alias", "union":
+					m.Sp = v()
+					fs := make([]Field, len(m.Fields))
+					for i, f := range m.Fields {
+						f.Sp = v()
+						fs[i] = f
+					}
+					m.Fields = fs
+				case "rest":
+					m.Rest = rest(m.Rest)
+				}
+				ms[mi] = m
+			}
+			b.Members = ms
+		}
+	}
+	return l
 }
 
 var noiseLines = []string{"", "", "   ", "\t", "# a comment", "#", "    # an indented comment", "  #import nothing", "        "}
@@ -1280,12 +2122,56 @@ func (g gen) hostile(s Spec) Layout {
 					if g.r.Chance(1, 8) && len(m.Fields) > 0 {
 						m.Fields[0].A.Tags = append(m.Fields[0].A.Tags, "pk", "pk")
 					}
+					if g.r.Chance(1, 3) && len(m.Fields) > 0 { // a field declared again (here, or in another share of the type)
+						f := m.Fields[g.r.Intn(len(m.Fields))]
+						f.Ty, f.Opt, f.A = prims[g.r.Intn(len(prims))], g.r.Chance(1, 3), g.attrs([]string{"x", "z", "pk"}, 2, 2)
+						m.Fields = append(append([]Field{}, m.Fields...), f)
+					}
+					if g.r.Chance(1, 4) { // annotations again, and one named like a header attribute
+						m.Annos = append(append([]Anno{}, m.Annos...), g.annos(2, map[string]bool{})...)
+						m.Annos = append(m.Annos, Anno{K: "desc", V: "by annotation"})
+					}
 					if g.r.Chance(1, 10) {
 						b.Members = append(b.Members, Member{Kind: "enum", Name: m.Name, Items: []Item{{"Z", 1}}})
 					}
+				case "anno":
+					if g.r.Chance(1, 2) { // the same name again, another value (also an empty one, also the other kind)
+						c := Anno{K: m.Anno.K, V: fmt.Sprintf("again %d", g.r.Intn(3))}
+						switch g.r.Intn(4) {
+						case 0:
+							c.V = ""
+						case 1:
+							c.IsArr, c.Arr = true, g.strs("h", g.r.Intn(3))
+						}
+						b.Members = append(b.Members, Member{Kind: "anno", Anno: &c})
+					}
+				case "alias", "union":
+					switch g.r.Intn(6) {
+					case 0: // declared again
+						b.Members = append(b.Members, Member{Kind: "alias", Name: m.Name, Ty: "bool", A: g.attrs([]string{"z"}, 1, 3)})
+					case 1:
+						b.Members = append(b.Members, Member{Kind: "union", Name: m.Name, Alts: []string{"date"}})
+					case 2: // a table of that name: only its attributes and annotations arrive
+						b.Members = append(b.Members, Member{Kind: "table", Name: m.Name, A: g.attrs([]string{"z"}, 1, 2), Annos: g.annos(1, map[string]bool{}),
+							Fields: []Field{{Name: "q", Ty: "int", A: Attrs{Tags: []string{"pk"}}}}})
+					}
+				case "mixin":
+					if g.r.Chance(1, 3) {
+						b.Members = append(b.Members, *m)
+					}
+				case "sub":
+					if g.r.Chance(1, 3) { // subscribed again: the subscriber's endpoint is replaced, the publisher is called twice
+						c := *m
+						c.Dots, c.Annos, c.Body = false, nil, g.bodyD([][]string{b.Parts}, 1, 0)
+						b.Members = append(b.Members, c)
+					}
 				case "ep", "event":
+					if m.Kind == "ep" && g.r.Chance(1, 4) { // an annotation named like a header attribute, an annotation twice
+						m.Annos = append(append([]Anno{}, m.Annos...), Anno{K: "owner", V: "by annotation"}, Anno{K: "note", V: "twice"})
+					}
 					if g.r.Chance(1, 3) {
 						c := *m
+						c.Dots = false
 						c.Body = g.body([][]string{b.Parts}, 1)
 						if g.r.Chance(1, 3) {
 							if c.Kind == "ep" {
@@ -1321,6 +2207,8 @@ func corpusCases() []replay {
 	app := []string{"App"}
 	ep := func(n string) Member { return Member{Kind: "ep", Name: n, Body: []Stmt{{Kind: 0, Text: "step1"}}} }
 	ty := func(n string) Member { return Member{Kind: "type", Name: n, Fields: []Field{{Name: "x", Ty: "int"}}} }
+	anno := func(k, v string) Member { return Member{Kind: "anno", Anno: &Anno{K: k, V: v}} }
+	annoArr := func(k string, vs ...string) Member { return Member{Kind: "anno", Anno: &Anno{K: k, IsArr: true, Arr: vs}} }
 	rest := func(seg string, sub string, verb string) Member {
 		return Member{Kind: "rest", Rest: &RNode{Segs: []string{seg}, Subs: []*RNode{{Segs: []string{sub}, Methods: []Method{{Verb: verb, Body: []Stmt{{Kind: 0, Text: "step1"}}}}}}}}
 	}
@@ -1342,6 +2230,52 @@ func corpusCases() []replay {
 			Split: Layout{Root: "root.sysl", Files: []File{
 				{Name: "root.sysl", Imports: []string{"f1.sysl"}, Blocks: []Block{{Parts: app, Members: []Member{rest("u", "a", "GET")}}}},
 				{Name: "f1.sysl", Blocks: []Block{{Parts: app, Members: []Member{rest("u", "b", "POST")}}, {Parts: app, Members: []Member{rest("v", "c", "GET")}}}}}}},
+		// round 3: annotations of the application and of a type over two blocks
+		{Note: "annotations over two blocks",
+			Joined: one(Block{Parts: app, A: Attrs{NV: []NV{{"owner", "me"}}, Tags: []string{"abstract"}}, Members: []Member{anno("note", "n1"), annoArr("langs", "go", "coq"),
+				{Kind: "type", Name: "T", A: Attrs{Tags: []string{"x"}}, Annos: []Anno{{K: "team", V: "t"}, {K: "since", V: ""}}, Fields: []Field{{Name: "x", Ty: "int"}, {Name: "y", Ty: "string"}}}}}),
+			Split: one(Block{Parts: app, Members: []Member{annoArr("langs", "go", "coq"), {Kind: "type", Name: "T", Annos: []Anno{{K: "since", V: ""}}, Fields: []Field{{Name: "y", Ty: "string"}}}}},
+				Block{Parts: app, A: Attrs{NV: []NV{{"owner", "me"}}, Tags: []string{"abstract"}}, Members: []Member{{Kind: "type", Name: "T", A: Attrs{Tags: []string{"x"}}, Annos: []Anno{{K: "team", V: "t"}}, Fields: []Field{{Name: "x", Ty: "int"}}}, anno("note", "n1")}})},
+		// alias, union, enum in re-opening blocks of an imported file; mixins in two blocks, the other way round
+		{Note: "alias / union / enum / mixins in re-opening blocks",
+			Joined: one(Block{Parts: app, Members: []Member{ty("T1"), {Kind: "alias", Name: "Al", Ty: "sequence of string"}, {Kind: "union", Name: "U", Alts: []string{"int", "T1"}},
+				{Kind: "enum", Name: "E", Items: []Item{{"A", 1}}}, {Kind: "mixin", Target: []string{"Mx1"}}, {Kind: "mixin", Target: []string{"Ns", "Mx3"}}}}),
+			Split: Layout{Root: "root.sysl", Files: []File{
+				{Name: "root.sysl", Imports: []string{"f1.sysl"}, Blocks: []Block{{Parts: app, Members: []Member{{Kind: "mixin", Target: []string{"Ns", "Mx3"}}, {Kind: "union", Name: "U", Alts: []string{"int", "T1"}}}}}},
+				{Name: "f1.sysl", Blocks: []Block{{Parts: app, Members: []Member{{Kind: "enum", Name: "E", Items: []Item{{"A", 1}}}, {Kind: "mixin", Target: []string{"Mx1"}}}},
+					{Parts: app, Members: []Member{{Kind: "alias", Name: "Al", Ty: "sequence of string"}, ty("T1")}}}}}}},
+		// a subscription in a re-opening block of an imported file; the publisher declares the event with `...`
+		{Note: "subscription in an imported re-opening block",
+			Joined: one(Block{Parts: app, Members: []Member{ep("Ep1"), {Kind: "sub", Target: []string{"Pub"}, Name: "Evt", Body: []Stmt{{Kind: 0, Text: "step1"}}}}},
+				Block{Parts: []string{"Pub"}, Members: []Member{{Kind: "event", Name: "Evt", Dots: true}}}),
+			Split: Layout{Root: "root.sysl", Files: []File{
+				{Name: "root.sysl", Imports: []string{"f1.sysl"}, Blocks: []Block{{Parts: app, Members: []Member{ep("Ep1")}}}},
+				{Name: "f1.sysl", Blocks: []Block{{Parts: app, Members: []Member{{Kind: "sub", Target: []string{"Pub"}, Name: "Evt", Body: []Stmt{{Kind: 0, Text: "step1"}}}}},
+					{Parts: []string{"Pub"}, Members: []Member{{Kind: "event", Name: "Evt", Dots: true}}}}}}}},
+		// an endpoint with parameters and nested statements re-opened in a later block: parameters and statements appended
+		{Note: "endpoint with parameters and nested statements re-opened",
+			Joined: one(Block{Parts: app, Members: []Member{
+				{Kind: "ep", Name: "Ep1", Params: []Param{{Name: "a", Ty: "int"}}, Body: []Stmt{{Kind: 3, Kw: "if", Text: "c", Body: []Stmt{{Kind: 0, Text: "step1"}}}, {Kind: 3, Kw: "else", Body: []Stmt{{Kind: 2, Text: "ok <: string"}}}}},
+				{Kind: "ep", Name: "Ep1", Params: []Param{{Name: "b", Ty: "T1"}}, Body: []Stmt{{Kind: 4, Choices: []Choice{{Label: "case1", Body: []Stmt{{Kind: 0, Text: "step2"}}}}}, {Kind: 3, Kw: "while", Text: "w", Body: []Stmt{{Kind: 0, Text: "step3"}}}}}}}),
+			Split: one(Block{Parts: app, Members: []Member{
+				{Kind: "ep", Name: "Ep1", Params: []Param{{Name: "a", Ty: "int"}}, Body: []Stmt{{Kind: 3, Kw: "if", Text: "c", Body: []Stmt{{Kind: 0, Text: "step1"}}}, {Kind: 3, Kw: "else", Body: []Stmt{{Kind: 2, Text: "ok <: string"}}}}}}},
+				Block{Parts: app, Members: []Member{
+					{Kind: "ep", Name: "Ep1", Params: []Param{{Name: "b", Ty: "T1"}}, Body: []Stmt{{Kind: 4, Choices: []Choice{{Label: "case1", Body: []Stmt{{Kind: 0, Text: "step2"}}}}}, {Kind: 3, Kw: "while", Text: "w", Body: []Stmt{{Kind: 0, Text: "step3"}}}}}}})},
+		// REST path with a typed variable and query parameters re-opened in another block with another method
+		{Note: "rest path with typed variable re-opened",
+			Joined: one(Block{Parts: app, Members: []Member{{Kind: "rest", Rest: &RNode{PSegs: []Seg{{Name: "items"}, {Name: "id", Ty: "int"}}, Methods: []Method{
+				{Verb: "GET", Query: []Param{{Name: "q", Ty: "string", Opt: true}}, Body: []Stmt{{Kind: 0, Text: "step1"}}},
+				{Verb: "PUT", Params: []Param{{Name: "b", Ty: "T1"}}, Annos: []Anno{{K: "patterns", IsArr: true, Arr: []string{"extra"}}}, Body: []Stmt{{Kind: 0, Text: "step2"}}}}}}}}),
+			Split: one(Block{Parts: app, Members: []Member{{Kind: "rest", Rest: &RNode{PSegs: []Seg{{Name: "items"}, {Name: "id", Ty: "int"}}, Methods: []Method{
+				{Verb: "PUT", Params: []Param{{Name: "b", Ty: "T1"}}, Annos: []Anno{{K: "patterns", IsArr: true, Arr: []string{"extra"}}}, Body: []Stmt{{Kind: 0, Text: "step2"}}}}}}}},
+				Block{Parts: app, Members: []Member{{Kind: "rest", Sp: 0, Rest: &RNode{PSegs: []Seg{{Name: "items"}, {Name: "id", Ty: "int"}}, Sp: 2, Methods: []Method{
+					{Verb: "GET", Query: []Param{{Name: "q", Ty: "string", Opt: true}}, Body: []Stmt{{Kind: 0, Text: "step1"}}}}}}}})},
+		// the same names spelled with and without %XX: a table with key fields over two blocks, an enum, the application
+		{Note: "literal and escaped spellings of one name",
+			Joined: one(Block{Parts: []string{"My-App"}, Members: []Member{{Kind: "table", Name: "Order-Line", Fields: []Field{{Name: "k-1", Ty: "int", A: pk}, {Name: "k-2", Ty: "int", A: pk}}},
+				{Kind: "enum", Name: "Colour", Items: []Item{{"A", 1}}}}}),
+			Split: one(Block{Parts: []string{"My-App"}, Sp: 2, Members: []Member{{Kind: "table", Name: "Order-Line", Sp: 5, Fields: []Field{{Name: "k-1", Ty: "int", A: pk, Sp: 1}}}}},
+				Block{Parts: []string{"My-App"}, Members: []Member{{Kind: "enum", Name: "Colour", Sp: 3, Items: []Item{{"A", 1}}}, {Kind: "table", Name: "Order-Line", Fields: []Field{{Name: "k-2", Ty: "int", A: pk, Sp: 1}}}}})},
 	}
 }
 
@@ -1382,7 +2316,7 @@ func main() {
 	}
 	c := common.Setup("C04")
 	defer c.Finish()
-	c.Res.Rule = "each case = one abstract specification (1-3 apps; types/tables with ~pk fields, enums, simple endpoints, events, REST trees; attributes, tags and long name on the header block) written JOINED and SPLIT (members, fields of one type and children of one REST tree partitioned into 1-5 blocks per app, blocks assigned to 1-4 files of a star / chain / random import graph, blocks and import statements permuted); both compiled by the real parser; distinct = distinct split text; non-trivial = the split form has at least two blocks"
+	c.Res.Rule = "each case = one abstract specification (1-3 apps + mixed-in / publishing apps; types/tables with ~pk fields and annotations, enums, aliases, unions, simple endpoints with parameters / annotations / nested statements, events, REST trees with typed path variables, query parameters and method annotations, mixins, subscriptions, application annotations; attributes (strings, arrays, tags) and long name on the header block) written JOINED and SPLIT (members, fields and annotations of one type and children of one REST tree partitioned into 1-5 blocks per app, blocks assigned to 1-4 files of a star / chain / random import graph, blocks and import statements permuted, names of applications / types / fields / path segments re-spelled with extra %XX escapes); both compiled by the real parser; distinct = distinct split text; non-trivial = the split form has at least two blocks"
 	if c.Replay != "" {
 		var rp replay
 		if err := common.LoadReplay(c.Replay, &rp); err != nil {
@@ -1451,12 +2385,37 @@ Local Open Scope positive_scope.`
 			o = splitOpts{maxBlocks: 4, maxFiles: 4, splitFields: true, ordered: true}
 			if i%8 == 2 { // members only (no field-level split), chains
 				o = splitOpts{maxBlocks: 4, maxFiles: 4, splitFields: false, shape: 2}
+			} else if i%16 == 6 {
+				// declarations met again: an order-preserving layout must still compile like the joined form
+				s = g.addDups(s)
+				c.Hist("ordered-with-redeclarations")
 			}
 		default:
 			s = g.spec(2, 8)
 			o = splitOpts{maxBlocks: 5, maxFiles: 4, splitFields: true, shape: 1 + g.r.Intn(3)}
 		}
 		jobs = append(jobs, job{"split", replay{Split: g.split(s, o), Joined: joined(s)}, i%5 == 0})
+	}
+	// oracle only (postProcess / mergo are outside the model): mixed-in applications WITH types, and layouts in which
+	// an imported file is handed over as a compiled module
+	nmix, npb := 30, 40
+	if c.Thorough() {
+		nmix, npb = 400, 600
+	}
+	if c.Search {
+		nmix, npb = nmix*2, npb*2
+	}
+	for i := 0; i < nmix; i++ {
+		s := g.mixTypes(g.spec(2, 5))
+		jobs = append(jobs, job{"mixtypes", replay{Split: g.split(s, splitOpts{maxBlocks: 4, maxFiles: 3, splitFields: true}), Joined: joined(s)}, false})
+	}
+	for i := 0; i < npb; i++ {
+		s := g.spec(2, 6)
+		l, ok := g.withPB(g.split(s, splitOpts{maxBlocks: 4, maxFiles: 4, splitFields: true, shape: 1 + g.r.Intn(2)}))
+		if !ok {
+			continue
+		}
+		jobs = append(jobs, job{"pbimport", replay{Split: l, Joined: joined(s)}, false})
 	}
 	// thorough: every set partition of the members of a small app into blocks (restricted growth strings),
 	// each in two random block orders / file assignments
@@ -1494,7 +2453,7 @@ Local Open Scope positive_scope.`
 						} else if nf == 2 {
 							files[0].Imports = []string{"f1.sysl"}
 						}
-						jobs = append(jobs, job{"partitions", replay{Split: Layout{Root: "root.sysl", Files: files}, Joined: joined(sp)}, false})
+						jobs = append(jobs, job{"partitions", replay{Split: Layout{Root: "root.sysl", Files: files}, Joined: joined(Spec{Apps: []App{ap}})}, false})
 					}
 					return
 				}
@@ -1535,6 +2494,9 @@ Local Open Scope positive_scope.`
 		jm := res[k]
 		k++
 		judge(c, j.rp, sm.m, jm.m, sm.err, jm.err)
+		if j.stream == "mixtypes" || j.stream == "pbimport" {
+			continue // judged by the oracle only
+		}
 		cs.Add(caseTerm(j.rp.Split, sm.m), j.rp)
 		if j.joinedToCoq {
 			cs.Add(caseTerm(j.rp.Joined, jm.m), replay{Split: j.rp.Joined, Joined: j.rp.Joined, Note: "joined form"})
